@@ -15,6 +15,9 @@ Numerical support / falsifier (on the implementation, independent oracles):
     huge prior variance on a state measured by a very accurate sensor (P_kk / R up to 1e17, cond P <= 1e10), where
     the exact posterior variance (~R) lies far below eps |P|;
   * integer-typed inputs (int64 arrays) give the float result;
+  * residual z - H x EXACTLY zero (x = 0 and z = 0; H rows of unit vectors with z copied from x; integer data), in the
+    first block or in all blocks: posterior covariance against the exact rational one, sequential vs joint;
+  * calls in a row on the same buffers updated in place in between: the result depends only on the current values;
   * whitening: innovation == solve(L, e) for the lower Cholesky factor L (numpy) of S, and
     innovation^T innovation == e^T S^-1 e (exact rational for small dimensions);
   * independent blocks processed in every order == joint processing;
